@@ -190,6 +190,33 @@ static ReadResult consume(osmium::io::file_compression comp, const std::string& 
     return r;
 }
 
+// Reference for the open finding F33: zlib's own gzread()/gzclose_r(), called the way GzipDecompressor calls them (same request size), on
+// a regular file with the given bytes. True if they deliver exactly `expect_out` bytes and report no error anywhere.
+static bool zlib_gzread_accepts(const std::string& file_bytes, size_t expect_out) {
+    std::string path = tmpfile_with(file_bytes);
+    int fd = ::open(path.c_str(), O_RDONLY);
+    if (fd < 0) return false;
+    gzFile gz = ::gzdopen(fd, "rb");
+    if (!gz) {
+        ::close(fd);
+        return false;
+    }
+    std::string buf(IBS, '\0');
+    size_t total = 0;
+    bool error = false;
+    for (;;) {
+        int n = ::gzread(gz, &buf[0], static_cast<unsigned>(buf.size()));
+        if (n < 0) {
+            error = true;
+            break;
+        }
+        if (n == 0) break;
+        total += static_cast<size_t>(n);
+    }
+    if (::gzclose_r(gz) != Z_OK) error = true;
+    return !error && total == expect_out;
+}
+
 static const char* cname(osmium::io::file_compression c) { return c == osmium::io::file_compression::gzip ? "gzip" : "bzip2"; }
 
 static void multi_stream(Src& s) {
@@ -309,11 +336,14 @@ static void multi_stream(Src& s) {
         for (size_t j = 0; j < boundaries.size(); ++j) {
             if (boundaries[j] == cut && r.out == plain.substr(0, plain_boundaries[j])) ok = true;
         }
-        if (!ok && comp == osmium::io::file_compression::gzip && from_fd != SRC_BUFFER && !r.out.empty() && r.out.size() % 16384 == 0 && plain.compare(0, r.out.size(), r.out) == 0 &&
-            vp::known_open("F33")) {
+        if (!ok && comp == osmium::io::file_compression::gzip && from_fd != SRC_BUFFER && !r.out.empty() && plain.compare(0, r.out.size(), r.out) == 0 && vp::known_open("F33") &&
+            zlib_gzread_accepts(file.substr(0, cut), r.out.size())) {
             // known finding F33 (open): zlib's gzread() does not notice the missing rest when the input runs out exactly where one of its
-            // output buffers is full; only this outcome is excluded, every other accepted truncation is still a violation
+            // output buffers is full. The exclusion is exactly that: gzread()/gzclose_r(), called directly with the library's request
+            // size on the same bytes, deliver the same correct prefix and report no error -- the truncation cannot be seen through the
+            // API GzipDecompressor is built on. Every other accepted truncation is still a violation.
             vp::count("known_finding_F33_truncation_where_a_zlib_output_buffer_is_full");
+            if ((r.out.size() % 16384) != 0) vp::count("known_finding_F33_in_a_later_member");
             continue;
         }
         if (!ok) {
